@@ -172,13 +172,13 @@ PROPS = {
                              "clap parsing (conflicts_with between --restart and --on-busy-update) not decided"],
                 claim="Verus proves the on-busy block sends exactly the documented controls per (running, mode): idle -> Start; do-nothing -> nothing; signal -> the configured signal only; restart -> graceful restart with the stop signal/timeout; queue -> at most one follow-up task, which waits for the current run to end and then starts one run; --signal/-r select the mode; start-up event sent iff not --postpone (structural); non-overlap is C04's invariant (same obligations)",
                 trusted="stand-ins in prelude/cliaction_env.rs (Job handle as a control log, atomics), prelude/task_env.rs"),
-    "C08": dict(units=["actionloop", "cliaction", "task", "flag", "sources"], level="proof",
+    "C08": dict(units=["actionloop", "latejoin", "cliaction", "task", "flag", "sources"], level="proof",
                 fallback=[replay_engine("lib", "graceful_quit_three_stubborn_jobs_within_grace", "C08.bounded.graceful_quit_three_stubborn_jobs_within_grace",
                                         "3 jobs that ignore SIGTERM, quit_gracefully(Terminate, 1.5 s) on the real library: the main task ends within grace + 1.2 s, not before the grace, and no process survives")],
                 engines=[replay_engine("supervisor", "grouped_graceful_stop_leaves_no_member", "C08.assumption.no_group_member_outlives_a_graceful_stop",
                                        "after stop_with_signal + delete of a grouped command no member of its process group is left (one history, executed on the real supervisor with real processes)",
                                        label="ASSUMPTION VALIDATED BY EXECUTION (OS / process-wrap behaviour no contract here can express; one history): ")],
-                assumptions=TASK_ASSUME + ["action::worker is proved against stand-ins for LateJoinSet/HashMap/handler: a graceful quit spawns one task per held job (stop_with_signal(signal, grace) then delete().await: item quit_job_task), joins them, joins every job task, then returns; an abort returns at once. That the main task then ends (watchexec.rs select/abort of the other workers) and that dropping LateJoinSet aborts the job tasks and kill_on_drop kills their children is tokio/process-wrap behaviour: NOT decided",
+                assumptions=TASK_ASSUME + ["action::worker is proved against stand-ins for LateJoinSet/HashMap/handler: a graceful quit spawns one task per held job (stop_with_signal(signal, grace) then delete().await: item quit_job_task), joins them, joins every job task, then returns; an abort returns at once. LateJoinSet itself (insert/spawn/join_all/abort_all/drop) is proved in unit latejoin over an abstract FuturesUnordered: dropping the set aborts every task in it, join_all waits for every task. That the main task then ends (watchexec.rs select/abort of the other workers), that an aborted job task drops its child and that kill_on_drop kills it is tokio/process-wrap behaviour: NOT decided",
                              "time bound: each quit task ends when its delete ticket resolves; that this happens within the grace periods is C06/C07/C09 (unit task: timers, tickets) composed by reading, not by one proof",
                              "process groups: signals and kills go to the group via process-wrap (command/conversions.rs wrappers: C18 decides the wrapping). Whether group members other than the leader outlive a graceful stop when the leader exits inside the grace period is OS/process-wrap behaviour outside any contract here: NOT decided (see DESIGN appendix, D9)",
                              "CLI: the quit closure and the signal gate are proved; clap parsing and the signal sources are C01's sources unit"],
